@@ -1,5 +1,6 @@
 (* C17: case vocabulary, model runner and the property predicate. *)
-From OIDC Require Import Lib C17_RP.
+From OIDC Require Import Lib.
+From OIDC Require Export C17_RP.
 
 (* S256 as a per-case oracle table filled by the harness with oidc.NewSHACodeChallenge *)
 Definition hfun (tab : list (string * string)) (v : string) : string :=
